@@ -90,9 +90,9 @@ def lib_attr(ex, obj: VLib, name: str):
     full = f"{obj.name}.{name}"
     if full in ("sys.version_info",):
         return VTuple([VInt(3), VInt(12), VInt(1), VStr("final"), VInt(0)])
-    if full == "numpy.nan":
+    if full in ("numpy.nan", "math.nan"):
         return VFloat(float("nan"))
-    if full == "numpy.inf":
+    if full in ("numpy.inf", "math.inf"):
         return VFloat(float("inf"))
     if full == "numpy.pi" or full == "math.pi":
         import math
